@@ -209,7 +209,11 @@ func atoi(s string) int {
 }
 
 func runWmpt(ops []string) CaseResult {
-	x := newWrun(ops)
+	return runWmptOn(newWrun(ops))
+}
+
+func runWmptOn(x *wrun) CaseResult {
+	ops := x.ops
 	for i, op := range ops {
 		f := strings.Fields(op)
 		out := x.step(i, f)
@@ -220,6 +224,10 @@ func runWmpt(ops []string) CaseResult {
 	}
 	if !x.abandoned {
 		x.crashEnumeration(len(ops) - 1)
+	}
+	for _, m := range x.st.mismatches {
+		x.uncov = true
+		x.res.Fails = append(x.res.Fails, m)
 	}
 	for t := range x.tags {
 		x.res.Tags = append(x.res.Tags, t)
@@ -499,6 +507,9 @@ func (x *wrun) step1(i int, f []string) string {
 		}
 		return "ok " + wmFmtEntries(x.newEntries(from))
 	case "reload":
+		if err := x.st.reopen(); err != nil { // (with a real adapter behind the store: close it and open its directory again)
+			x.fail(i, "reopening the storage failed: %v", err)
+		}
 		x.t = openTrie(x.st, x.croot, x.cweight)
 		x.live = x.committed.clone()
 		x.changed = nil
